@@ -133,6 +133,7 @@ def gen_jobs(ctx):
                 for _ in range(3):
                     jobs.append(_one(rng, k, n))
     jobs += zone_block(ctx)
+    jobs += categorical_pairs_block(ctx)
     # confirmation stream of an open finding: a legal column name that ends in "-catdef" (the reader's internal key for the label
     # array of a categorical) with several row groups
     base = {"compression": None, "row_group_offsets": 3, "has_nulls": True, "page_size": None, "dpv": 1, "stats": True,
@@ -184,6 +185,26 @@ def zone_block(ctx):
             spec = {"n": rng.choice([1, 8, 65]), "cols": [dict(col, seed=rng.randrange(1 << 30), nulls=rng.choice(F.NULL_PATTERNS))],
                     "index": dict(ix) if rng.random() < 0.5 else None}
             jobs.append((spec, rt.gen_opts(rng, spec)))
+    return jobs
+
+
+def categorical_pairs_block(ctx):
+    """deterministic: frames with SEVERAL categorical columns of EQUAL category count whose `ordered` flags and label kinds differ (the reader
+    builds a placeholder dtype per column; anything it shares between columns of one size shows here), each order of the columns,
+    one and several row groups; the ordered flag / labels / codes are compared per column"""
+    base = {"compression": None, "row_group_offsets": None, "has_nulls": True, "page_size": None, "dpv": 1, "stats": True,
+            "times": "int64", "object_encoding": "infer", "file_scheme": "simple", "write_index": None}
+    jobs = []
+    combos = [[("cat_str", True), ("cat_int", False)], [("cat_int", False), ("cat_str", True)],
+              [("cat_str", False), ("cat_str", True)], [("cat_str", True), ("cat_str", False)],
+              [("cat_float", True), ("cat_str", False), ("cat_int", True)], [("cat_int", True), ("cat_dt", False), ("cat_float", False)],
+              [("cat_bool", True), ("cat_bool", False)]]
+    for ci, combo in enumerate(combos):
+        for ncat in ((2,) if combo[0][0] == "cat_bool" else (2, 5, 130)):
+            cols = [{"name": "k%d_%s" % (j, k), "kind": k, "ordered": od, "ncat": ncat, "nulls": ["none", "some"][(ci + j) % 2], "seed": 4242 + 7 * ci + j}
+                    for j, (k, od) in enumerate(combo)]
+            jobs.append(({"n": 9, "cols": cols, "index": None}, dict(base, row_group_offsets=[None, 4][(ci + ncat) % 2], dpv=1 + (ci % 2),
+                                                                     file_scheme=["simple", "hive"][ncat % 2])))
     return jobs
 
 
